@@ -649,7 +649,9 @@ where
             //= https://www.rfc-editor.org/rfc/rfc9114#section-6.2.3
             //# They MAY also be
             //# sent on connections where no data is currently being transferred.
-            ready!(self.poll_grease_stream(cx));
+            // The frame has already been taken out of the control stream: it must be
+            // returned whether or not the grease stream makes progress.
+            let _ = self.poll_grease_stream(cx);
         }
 
         Poll::Ready(Ok(res))
